@@ -96,6 +96,21 @@ def run(ctx):
                     pol.setdefault("seq", set()).add(p)
             ctx.ob("R2", "%s:%s:hex-when-human-readable,sequence-otherwise" % (name, side), pol.get("hex") == {"true"} and "false" in pol.get("seq", set()), "%s:%d" % (f.file, f.line),
                    "hex family under is_human_readable=%s, sequence family under %s" % (sorted(pol.get("hex", [])), sorted(pol.get("seq", []))), f)
+    # a deserializer that asks for a *borrowed* &str / &[u8] only works with formats that can lend the input; owned or
+    # transient strings (readers, serde_json::Value, escapes) fail, while the matching serializer writes them happily
+    borrowed = []
+    n_de = 0
+    for f in prog.fns_by_crate["essential_types"]:
+        if f.kind == "Const":
+            continue
+        for bb, t in f.calls():
+            c = M.callee_of(t)
+            if re.search(r"Deserialize<'de>( for .*)?>::deserialize$|serde::de::Deserialize::deserialize$", c):
+                n_de += 1
+                if re.search(r"Deserialize<'de> for &'a (str|\[u8\]|std::path::Path)>::deserialize$", c):
+                    borrowed.append((f.path, f.loc(bb), c))
+    ctx.ob("R2", "deserializers-accept-owned-input", not borrowed, borrowed[0][1] if borrowed else "crates/types/src/serde", "%d Deserialize::deserialize calls in essential-types; borrowed-only targets: %s" % (n_de, [(a, c[-60:]) for a, _, c in borrowed]))
+    ctx.floor("R2", "Deserialize::deserialize calls inspected", n_de, 4)
     sig_s = prog.one_fn(r"impl serde::ser::Serialize for essential_types::Signature>::serialize$")
     sig_d = prog.one_fn(r"impl serde::de::Deserialize<'de> for essential_types::Signature>::deserialize$")
     if ctx.anchor("R2", "serde impls of Signature", sig_s and sig_d):
